@@ -4,6 +4,9 @@ package c03
 import (
 	"fmt"
 	"runtime"
+	"strings"
+
+	"github.com/bnb-chain/tss-lib/v2/tss"
 
 	"verif/internal/core"
 	"verif/internal/protomc"
@@ -23,7 +26,7 @@ func Run(r *core.Run) {
 	var jobs []job
 	add := func(sc protomc.Scenario, mode string, devs int) { jobs = append(jobs, job{sc, mode, devs}) }
 	// EdDSA: all (n,t) with n<=3 and every id pattern: all schedules (decomposed)
-	for _, pat := range []string{"small", "near-q", "large", "multiples"} {
+	for _, pat := range []string{"small", "near-q", "large", "multiples", "byte-boundary"} {
 		add(scen.EdKeygen(pat, 2, 1, r.Seed), "", 0)
 		add(scen.EdKeygen(pat, 3, 1, r.Seed), "", 0)
 		add(scen.EdKeygen(pat, 3, 2, r.Seed), "", 0)
@@ -48,6 +51,13 @@ func Run(r *core.Run) {
 	}
 	var states, trans, traces int
 	for _, j := range jobs {
+		// the process-wide default curve (tss.SetCurve) is deliberately the OTHER curve: a party must work
+		// on the curve of its own parameters, whatever another protocol in the same process selected
+		if strings.HasPrefix(string(j.sc.Cfg.Proto), "ecdsa") {
+			tss.SetCurve(tss.Edwards())
+		} else {
+			tss.SetCurve(tss.S256())
+		}
 		o := protomc.Options{C07: true, Mode: j.mode, Deviations: j.devs, Workers: w, JointValidate: 10, ResultOracle: scen.ResultOracle(j.sc)}
 		st := protomc.Explore(r, j.sc, o)
 		states += st.States
@@ -76,4 +86,5 @@ func Run(r *core.Run) {
 	r.Set("oracle", "in every terminal state: identical public view at all parties; Xi*G = BigXj[i]; every (t+1)-subset interpolates (in the exponent and on the secrets) to the group key and to every other party's public share (degree <= t); group key = sum of the constant-term commitments opened in the round-2 broadcasts; per-index slots hold the right party's Paillier modulus / NTilde / h1 / h2 / id; Paillier private key consistent")
 	r.Assume("party independence validated by joint replays (traces_validated_against_impl)")
 	r.Assume("ECDSA parties use the 5 vendored pre-parameter sets (n <= 5)")
+	r.Set("process_default_curve", "set to the other curve than the protocol's (edwards25519 while ECDSA runs, secp256k1 while EdDSA runs)")
 }
